@@ -106,7 +106,7 @@ E0 == [op |-> "none", out |-> "ok", nopt |-> 0, argsame |-> TRUE,
        rxhi |-> "none", binfail |-> FALSE, contnan |-> FALSE,
        val |-> "none", kwvals |-> <<>>, haspre |-> FALSE, streq |-> FALSE,
        orphan |-> FALSE, ret |-> "none", expect |-> "none", tree |-> FALSE,
-       pseudo |-> FALSE, details |-> FALSE,
+       pseudo |-> FALSE, details |-> FALSE, via |-> "fresh",
        retnum |-> [m1 |-> FALSE, zero |-> FALSE, inrange |-> FALSE]]
 
 \* the canonical successor must satisfy the relational contract
@@ -161,14 +161,19 @@ DetailsIn(x, p) ==
 
 \* via = "details": fresh arguments and ret_details=True (the details are a
 \* by-product: the state after the call is that of a plain request)
+\* via = "attr": the caller edits the objects the curve exposes as its
+\* `preprocessing` / `preprocessing_options` attributes in place and passes
+\* them (or nothing, which means the same) -- as good as fresh equal values
 ApplyPre(p, via) ==
-  /\ via \in {"obj", "fresh", "details"}
+  /\ via \in {"obj", "fresh", "details", "attr"}
   /\ p \in Pipes \cup BadPipes
   /\ (via = "obj") => (W.mutate_pl /\ p = plobj)
   /\ st' \in (IF via = "details" THEN {PreIn(st, p), DetailsIn(st, p)}
                                    ELSE {PreIn(st, p)})
   /\ UNCHANGED <<plobj, piobj>>
-  /\ Conforms(st, [EvPre(st, p, "apply") EXCEPT !.details = (via = "details")],
+  /\ Conforms(st, [EvPre(st, p, "apply") EXCEPT
+                     !.details = (via = "details"),
+                     !.via = IF via \in {"obj", "attr"} THEN "obj" ELSE "fresh"],
               st')
 
 \* ------------------------------------------------------------- settings
@@ -308,7 +313,7 @@ Rate(r) ==
 Next ==
   \/ \E p \in Pipes \cup BadPipes : MutatePL(p)
   \/ \E q \in PiVals : MutatePI(q)
-  \/ \E p \in Pipes \cup BadPipes, via \in {"obj", "fresh", "details"} : ApplyPre(p, via)
+  \/ \E p \in Pipes \cup BadPipes, via \in {"obj", "fresh", "details", "attr"} : ApplyPre(p, via)
   \/ \E k \in Keys, via \in {"obj", "fresh"} : \E v \in Vals(k) : SetKey(k, v, via)
   \/ SetUnknown
   \/ Fit0
